@@ -16,7 +16,8 @@ RULE = ("Each case runs a real hio http Server (WSGI) or BareServer, plain or TL
         "on the fake kernel; tymeout from {0.25, 1, 5}, tock from {1/32, 0.1, 0.25}. 1-3 scripted raw clients with seeded timing: "
         "connect and stay silent; trickle one header byte every d (d = 0.3, 0.6 or 0.9 tymeout) and fall silent at a drawn tyme; "
         "send bursts of several fragments per cycle then fall silent; a complete non-persistent request whose WSGI app never "
-        "finishes; a persistent HTTP/1.1 exchange (exempt, observed only). Idleness is the only server-side reason to close. "
+        "finishes; a non-persistent request for a 20-40 kB body over a 2 kB socket buffer read slowly, so that response bytes flow every "
+        "cycle for 1.5-2.5 tymeouts; a persistent HTTP/1.1 exchange (exempt, observed only). Idleness is the only server-side reason to close. "
         "Oracle in Doist tyme, from the fake kernel's own record of when bytes moved on the server-side socket: (safety) when "
         "the server closes a connection, the last traffic before that cycle is at least tymeout old; (bounded liveness) a "
         "non-persistent connection idle since tyme t is closed by t + tymeout + 2 tocks; service never raises. "
@@ -26,17 +27,26 @@ COMPONENTS = dict(real=["hio.core.http.serving.Server/BareServer/ServerDoer/Requ
                         "hio.base.doing.Doist (virtual time)", "OpenSSL engine"],
                   stub=["kernel sockets (FakeSocket)", "raw scripted clients"])
 ASSUMPTIONS = ["TLS clients complete the handshake before falling silent (connections stalled inside the handshake are outside the generated domain)",
-               "traffic = bytes accepted from or delivered to the server-side socket"]
-PROBES = ["silent_closed", "trickle_survived", "burst_then_idle", "app_never_finishes", "persistent_kept", "tls_case", "bare_server"]
+               "traffic = bytes accepted from or delivered to the server-side socket (TLS: plaintext moved by the server-side TLS layer)"]
+PROBES = ["silent_closed", "trickle_survived", "burst_then_idle", "app_never_finishes", "persistent_kept", "tls_case", "bare_server",
+          "slow_download_completed"]
 BOUNDS = dict(quick=dict(clients=3, cycles=450), thorough=dict(clients=3, cycles=450))
-TIERS = dict(quick=dict(cases=1500, wall=50.0), thorough=dict(cases=60000, wall=420.0))
+TIERS = dict(quick=dict(cases=8000, wall=50.0), thorough=dict(cases=200000, wall=420.0))
 
 REQ10 = b"GET /idle HTTP/1.0\r\nHost: x\r\nAccept: */*\r\n\r\n"
 REQ11 = b"GET /done HTTP/1.1\r\nHost: x\r\n\r\n"
 HEAD_TRICKLE = b"GET /slow HTTP/1.0\r\nHost: example.com\r\nUser-Agent: trickle-trickle-trickle-trickle-trickle-trickle\r\nX-A: 1\r\nX-B: 2\r\nX-C: 3\r\n"
 
 
+BIG = [40000]     # body size of /big for the current case
+REQBIG = b"GET /big HTTP/1.0\r\nHost: x\r\n\r\n"
+
+
 def app(environ, start_response):
+    if environ["PATH_INFO"] == "/big":
+        start_response("200 OK", [("Content-Type", "application/octet-stream"), ("Content-Length", str(BIG[0]))])
+        yield b"B" * BIG[0]
+        return
     if environ["PATH_INFO"] == "/done":
         start_response("200 OK", [("Content-Type", "text/plain"), ("Content-Length", "2")])
         yield b"ok"
@@ -61,6 +71,7 @@ class RawClient:
         self.rx = bytearray()
         self.pending = bytearray()
         self.sent_events = 0
+        self.read_rate = None      # bytes read per step (None: everything there is)
 
     def step(self, tyme):
         net = self.lab.net
@@ -104,10 +115,13 @@ class RawClient:
         except OSError:
             self.closed_seen = tyme
             return
-        # drain
+        # drain (a slow reader takes read_rate bytes per step)
         try:
             while True:
-                d = io.recv(4096)
+                d = io.recv(4096 if self.read_rate is None else self.read_rate)
+                if d and self.read_rate is not None:
+                    self.rx.extend(d)
+                    break
                 if d == b"":
                     self.closed_seen = tyme
                     break
@@ -127,7 +141,7 @@ def run_case(tape, tier):
     if tymeout == 5.0 and tock < 0.1:
         tock = 0.1
     ncl = 1 + tape.draw("nclients", 3)
-    kinds = ["silent", "trickle", "burst", "appnever", "persistent"]
+    kinds = ["silent", "trickle", "burst", "appnever", "persistent", "download"]
     if bare:
         kinds = ["silent", "trickle", "burst"]
     specs = []
@@ -160,16 +174,37 @@ def run_case(tape, tier):
         elif kind == "persistent":
             script.append((start + tock, REQ11))
             last = start + tock
+        elif kind == "download":
+            # non-persistent request for a body much larger than the socket buffer, read slowly: the response
+            # keeps flowing (a little every cycle) for longer than tymeout
+            script.append((start + tock, REQBIG))
+            ncyc = int(tape.pick("dl_dur", [1.5, 2.5]) * tymeout / tock)
+            size = tape.pick("dl_size", [20000, 40000])
+            rate = max(16, size // ncyc)
+            if tls:
+                # a whole TLS record (16 kB) has to pass in well under a tymeout, or no plaintext progress is visible at all
+                rate = max(rate, int(17000 / (0.4 * tymeout / tock)) + 1)
+                size = rate * ncyc
+            spec_extra = dict(size=size, rate=rate)
+            last = start + tock + (size / spec_extra["rate"] + 4) * tock
         else:
             last = start
         specs.append(dict(kind=kind, start=start, script=[(t, bytes(b).decode("latin1")) for t, b in script], last=last))
+        if kind == "download":
+            specs[-1].update(spec_extra)
         horizon = max(horizon, last)
     limit = horizon + tymeout * tape.pick("after", [1.6, 2.5, 0.8]) + 6 * tock
     if limit / tock > 440:
         limit = 440 * tock
     cfg = dict(tls=tls, bare=bare, tymeout=tymeout, tock=tock, limit=limit, clients=specs)
     raised = []
-    with netlab.Lab(tape, res, tls=tls, rates=dict(short=tape.pick("r_short", [0, 4]), delay=0), wirelog=False) as lab:
+    downloads = [sp for sp in specs if sp["kind"] == "download"]
+    if downloads:
+        BIG[0] = downloads[0]["size"]
+        for sp in downloads:
+            sp["size"] = BIG[0]
+    capacity = 2048 if downloads else 1 << 16
+    with netlab.Lab(tape, res, tls=tls, capacity=capacity, rates=dict(short=tape.pick("r_short", [0, 4]), delay=0), wirelog=False) as lab:
         net = lab.net
         doist = doing.Doist(tock=tock, real=False, limit=limit)
         net.tymth = doist.tymen()
@@ -183,6 +218,9 @@ def run_case(tape, tier):
             server = hserving.Server(app=app, port=lab.port, scheme="https" if tls else "http", tymeout=tymeout, **kwa)
         net.current_owner = None
         clients = [RawClient(lab, i, tls, [(t, s.encode("latin1")) for t, s in sp["script"]], sp["start"]) for i, sp in enumerate(specs)]
+        for c, sp in zip(clients, specs):
+            if sp["kind"] == "download":
+                c.read_rate = sp["rate"]
 
         class Srv(doing.Doer):
             def enter(s, *, temp=None):
@@ -244,6 +282,11 @@ def run_case(tape, tier):
                     continue
                 srv = c.sock.peer            # server-side socket of this connection
                 tymes = srv.io_tymes
+                if tls:
+                    # traffic as the server can see it: plaintext moved by the TLS layer (a record that is still trickling
+                    # into the kernel has not been sent as far as SSL_write's caller can tell)
+                    wrapped = [w for w in net.tls_sockets if w.sock is srv]
+                    tymes = wrapped[0].io_tymes if wrapped else []
                 closed = srv.closed_tyme
                 # closes that happened in the final exit of the run are not idle closes
                 if closed is not None and closed >= end_tyme - eps:
@@ -253,6 +296,18 @@ def run_case(tape, tier):
                     if closed is None:
                         res.probes["persistent_kept"] += 1
                     continue
+                # the server handed the whole response (head + declared body) to the kernel (TLS: to the TLS layer)
+                if tls:
+                    sent_plain = len(wrapped[0].plain_tx) if wrapped else 0
+                else:
+                    sent_plain = srv.out.total_accepted
+                complete = sp["kind"] == "download" and sent_plain > sp["size"]
+                if sp["kind"] == "download":
+                    if complete:
+                        res.probes["slow_download_completed"] += 1
+                        if len(set(tymes)) >= 2 and tymes[-1] - tymes[0] > tymeout:
+                            res.nontrivial = True
+                        continue      # the close after a completed non-persistent response is not an idle close
                 if closed is not None:
                     before = [t for t in tymes if t < closed - eps]
                     t_last = before[-1] if before else None
